@@ -2,6 +2,7 @@ package acmelib
 
 import (
 	"math"
+	"math/bits"
 	"strings"
 )
 
@@ -12,13 +13,11 @@ func calcSizeFromValue(val int) int {
 		return 1
 	}
 
-	for i := 0; i < maxSize; i++ {
-		if val < 1<<i {
-			return i
-		}
+	if val < 0 {
+		return maxSize
 	}
 
-	return maxSize
+	return bits.Len64(uint64(val))
 }
 
 func calcValueFromSize(size int) int {
